@@ -45,6 +45,16 @@ RULE = ("start arrays of 1..5 rows x 1..5 small integers (rectangular and not; n
         "reads (row, element, column slice, starts, max, min).  Values are read back as exact numbers and compared with "
         "the list-of-rows interpreter; in Coq the same history is evaluated times the common denominator of its values "
         "(writes and reads do no arithmetic).  "
+        "(v) index arguments: writes a[R, C] = v and reads a[R, C] through ndarray index objects (int8..int64, negative "
+        "entries, also two columns of one table) that the caller keeps and uses again after an append, after a row "
+        "assignment that changes a row length, and on a second array; the objects must be unchanged after every use. "
+        "(vi) rowless arrays (oracle only): z = a[empty row slice, slice|int|list], a[empty row slice], RaggedArray([]), "
+        "RaggedArray(flat, lengths=[]), then up to 5 of: z op k, k op z, z cmp k, k cmp z, ~(z cmp k), z op z, z cmp z, "
+        "z[:, :] = v, z.append(rows), z[:, s], z[s]; after every stage len, iteration, lengths, shape[:2], size, flatten, "
+        "starts, _data, _array must agree with the list-of-rows value (starts of a rowless array: known finding). "
+        "(vii) NaN / inf (oracle only): float64 / float32 arrays holding NaN, +inf, -inf; all six comparison operators "
+        "with a scalar on the right and on the left (reflected), with a RaggedArray, negated, .all() / .any(), a[mask] "
+        "and masked writes a[a >= k] = v, a[k <= a] = v, a[a <= b] = v; expected values are Python's float comparisons. "
         "non-trivial := >= 2 rows, >= 3 successful writes, at least one through the row view (route A) and one through "
         "the flat data (route B); or any case of the three streams with >= 1 successful write")
 TRUSTED = ["translator/tr_ragged_ops.py (+ tr_ragged.py for the flat-offset arithmetic): the write path's structure is "
@@ -86,8 +96,20 @@ LOG = {"and": ("LAnd", "__and__"), "or": ("LOr", "__or__"), "xor": ("LXor", "__x
 
 
 def pybin(o, x, k):
-    return {"add": x + k, "sub": x - k, "mul": x * k, "fdiv": (x // k) if k else 0, "mod": (x % k) if k else 0,
-            "pow": x ** k if k >= 0 else 0}[o]
+    # only the requested operation is evaluated (k ** x with an element x of 10^18 never ends)
+    if o == "add":
+        return x + k
+    if o == "sub":
+        return x - k
+    if o == "mul":
+        return x * k
+    if o == "fdiv":
+        return (x // k) if k else 0
+    if o == "mod":
+        return (x % k) if k else 0
+    if o == "pow":
+        return x ** k if k >= 0 else 0
+    raise KeyError(o)
 
 
 def pycmp(c, x, k):
@@ -740,6 +762,458 @@ def _stream_dtype(rng, maxitems):
     return {"init": init, "items": items, "stream": "dtype"}
 
 
+# ----------------------------------------------------------------------------- rowless arrays (round 3s)
+# Self-contained cases (oracle only; the Coq trace model has no rowless observers): an array z without rows is produced
+# from `a` by an operation, then operators / writers / append act on z; after every stage all views of z are compared
+# with each other and with the list-of-rows model.
+def _empty_rowslice(rng, n):
+    return rng.choice([[0, 0, None], [n, None, None], [n + 1, None, None], [None, 0, None], [-1, 0, None], [1, 1, None],
+                       [None, -n - 1, None], [n, n + 3, 2], [n, None, 1], [-n - 2, -n, None], [2, 1, None],
+                       [0, 0, -1]])
+
+
+def _stream_rowless(rng):
+    n = rng.randint(1, 4)
+    rect = rng.random() < 0.4
+    L = rng.randint(1, 4)
+    rows = [[_val(rng) for _ in range(L if rect else rng.randint(1, 5))] for _ in range(n)]
+    q = rng.random()
+    maxlen = max(map(len, rows))
+    if q < 0.55:
+        rsl = _empty_rowslice(rng, n) if rng.random() < 0.85 else _slice(rng, n)
+        cq = rng.random()
+        if cq < 0.5:
+            csel = ["sl"] + _slice(rng, maxlen)
+        elif cq < 0.75:
+            csel = ["int", rng.randint(-1, min(map(len, rows)) - 1)]
+        else:
+            lim = min(map(len, rows))
+            csel = ["li", [rng.randint(-lim, lim - 1) for _ in range(rng.randint(1, 2))]]
+        src = ["sl2", rsl, csel]
+    elif q < 0.75:
+        src = ["rows", _empty_rowslice(rng, n)]
+    elif q < 0.88:
+        src = ["ctor"]
+    else:
+        src = ["ctor_flat", rng.random() < 0.5]
+    chain = []
+    isbool = False      # after a comparison z is a boolean array: no arithmetic on it (NumPy's bool + bool is `or`)
+    for _ in range(rng.randint(1, 5)):
+        k = rng.choice(["cmp", "lcmp", "not_cmp", "cmpself", "colsl", "rowsl"] if isbool else
+                       ["bin", "bin", "rbin", "cmp", "lcmp", "not_cmp", "binself", "cmpself", "set_all", "append", "colsl",
+                        "rowsl"])
+        zcur = _rowless_model({"rows": rows, "src": src, "chain": chain})[-1]
+        if k == "append" and zcur and not any(zcur):
+            continue        # rows but no element: append re-initialises the array (rows of length 0 are outside the property)
+        isbool = isbool or k in ("cmp", "lcmp", "not_cmp", "cmpself")
+        if k in ("bin", "rbin"):
+            o = rng.choice(["add", "sub", "mul"] + (["fdiv", "mod"] if k == "bin" else []))
+            chain.append([k, o, {"fdiv": rng.choice([1, 2, 3]), "mod": rng.choice([2, 3, 5])}.get(o, rng.randint(-2, 4))])
+        elif k in ("cmp", "lcmp", "not_cmp"):
+            chain.append([k, rng.choice(list(CMP)), _val(rng)])
+        elif k == "binself":
+            chain.append([k, rng.choice(["add", "sub", "mul"])])
+        elif k == "cmpself":
+            chain.append([k, rng.choice(list(CMP))])
+        elif k == "set_all":
+            chain.append([k, _val(rng)])
+        elif k == "append":
+            chain.append([k, [[_val(rng) for _ in range(rng.randint(1, 3))] for _ in range(rng.randint(1, 2))],
+                          rng.choice(["ra", "lists"])])
+        elif k == "colsl":
+            chain.append([k] + _slice(rng, 3))
+        else:
+            chain.append([k] + rng.choice([[0, 0, None], [None, None, None], [1, None, None], [None, None, -1]]))
+    return {"stream": "rowless", "rows": rows, "ctor": rng.choice(["rows", "flat", "flat_np"]), "src": src, "chain": chain}
+
+
+def _views(z):
+    out = {}
+
+    def rec(name, f):
+        try:
+            out[name] = f()
+        except Exception as ex:
+            out[name] = {"err": type(ex).__name__ + ": " + str(ex)[:80]}
+    rec("snap", lambda: _snap(z))
+    rec("len", lambda: int(len(z)))
+    rec("iter", lambda: [[_toint(x) for x in np.asarray(r).tolist()] for r in z])
+    rec("lengths", lambda: [int(x) for x in z.lengths])
+    rec("shape", lambda: [None if x is None else int(x) for x in z.shape])
+    rec("size", lambda: int(z.size))
+    rec("flatten", lambda: [_toint(x) for x in z.flatten().tolist()])
+    rec("starts", lambda: [_toint(x) for x in z.starts.tolist()])
+    return out
+
+
+def _run_rowless(c):
+    import operator
+    from enspara.ra.ra import RaggedArray
+    rows = c["rows"]
+    if c["ctor"] == "rows":
+        a = RaggedArray([list(r) for r in rows])
+    else:
+        lens = [len(r) for r in rows]
+        a = RaggedArray(np.array([x for r in rows for x in r]), lengths=np.array(lens) if c["ctor"] == "flat_np" else lens)
+    a0 = _snap(a)
+    stages = []
+    src = c["src"]
+    try:
+        if src[0] == "sl2":
+            cs = src[2]
+            ci = _pysl(cs[1:]) if cs[0] == "sl" else cs[1] if cs[0] == "int" else list(cs[1])
+            z = a[_pysl(src[1]), ci]
+        elif src[0] == "rows":
+            z = a[_pysl(src[1])]
+        elif src[0] == "ctor":
+            z = RaggedArray([])
+        else:
+            z = RaggedArray(np.array([], dtype=int), lengths=np.array([], dtype=int) if src[1] else [])
+    except Exception as ex:
+        return {"stages": [{"err": type(ex).__name__ + ": " + str(ex)[:120]}], "operand_ok": _snap(a) == a0}
+    stages.append(_views(z))
+    for st in c["chain"]:
+        k = st[0]
+        try:
+            if k == "bin":
+                z = getattr(z, BIN[st[1]][1])(st[2])
+            elif k == "rbin":
+                z = getattr(z, RBIN[st[1]])(st[2])
+            elif k == "cmp":
+                z = getattr(z, CMP[st[1]][1])(st[2])
+            elif k == "lcmp":
+                z = getattr(operator, st[1])(st[2], z)
+            elif k == "not_cmp":
+                z = ~getattr(z, CMP[st[1]][1])(st[2])
+            elif k == "binself":
+                z = getattr(z, BIN[st[1]][1])(z)
+            elif k == "cmpself":
+                z = getattr(z, CMP[st[1]][1])(z)
+            elif k == "set_all":
+                z[:, :] = st[1]
+            elif k == "append":
+                z.append(RaggedArray([list(r) for r in st[1]]) if st[2] == "ra" else [np.array(r) for r in st[1]])
+            elif k == "colsl":
+                z = z[:, _pysl(st[1:])]
+            elif k == "rowsl":
+                z = z[_pysl(st[1:])]
+            stages.append(_views(z))
+        except Exception as ex:
+            stages.append({"err": type(ex).__name__ + ": " + str(ex)[:120]})
+            break
+    return {"stages": stages, "operand_ok": _snap(a) == a0}
+
+
+def _rowless_model(c):
+    """the list-of-rows value of z after the source and after every chain step"""
+    rows = [list(r) for r in c["rows"]]
+    src = c["src"]
+    if src[0] == "sl2":
+        sel = [rows[i] for i in _sl(src[1], len(rows))]
+        cs = src[2]
+        if cs[0] == "sl":
+            z = [list(r[_pysl(cs[1:])]) for r in sel]
+        elif cs[0] == "int":
+            z = [[r[cs[1]]] for r in sel]
+        else:
+            z = [[r[j] for j in cs[1]] for r in sel]
+    elif src[0] == "rows":
+        z = [list(rows[i]) for i in _sl(src[1], len(rows))]
+    else:
+        z = []
+    out = [z]
+    for st in c["chain"]:
+        k = st[0]
+        if k == "bin":
+            z = [[pybin(st[1], x, st[2]) for x in r] for r in z]
+        elif k == "rbin":
+            z = [[pybin(st[1], st[2], x) for x in r] for r in z]
+        elif k == "cmp":
+            z = [[int(pycmp(st[1], x, st[2])) for x in r] for r in z]
+        elif k == "lcmp":
+            z = [[int(pycmp(st[1], st[2], x)) for x in r] for r in z]
+        elif k == "not_cmp":
+            z = [[int(not pycmp(st[1], x, st[2])) for x in r] for r in z]
+        elif k == "binself":
+            z = [[pybin(st[1], x, x) for x in r] for r in z]
+        elif k == "cmpself":
+            z = [[int(pycmp(st[1], x, x)) for x in r] for r in z]
+        elif k == "set_all":
+            z = [[st[1]] * len(r) for r in z]
+        elif k == "append":
+            z = [list(r) for r in z] + [list(r) for r in st[1]]
+        elif k == "colsl":
+            z = [list(r[_pysl(st[1:])]) for r in z]
+        elif k == "rowsl":
+            z = [list(r) for r in z[_pysl(st[1:])]]
+        out.append(z)
+    return out
+
+
+def _oracle_rowless(c, r):
+    out = []
+    if not r.get("operand_ok", False):
+        out.append(("operands-unaltered", "the array was altered by producing / working on the selection %s" % c["src"]))
+    model = _rowless_model(c)
+    names = [str(c["src"])] + [str(st) for st in c["chain"]]
+    for i, (z, name) in enumerate(zip(model, names)):
+        what = "z = a%s on rows %s, then %s" % (c["src"], c["rows"], c["chain"][:i]) if i else "z = %s of rows %s" % (c["src"], c["rows"])
+        if i >= len(r["stages"]):
+            break
+        got = r["stages"][i]
+        if "err" in got and "snap" not in got:
+            out.append(("rowless-views" if not z else "op-structure", "%s: raised %s, the list-of-rows model gives %s" % (what, got["err"], z)))
+            break
+        flat = [x for row in z for x in row]
+        lens = [len(row) for row in z]
+        rectl = len(z) > 0 and len(set(lens)) == 1
+        exp = {"snap": _ra_of(z), "len": len(z), "iter": z, "lengths": lens, "shape": [len(z), lens[0] if rectl else None],
+               "size": len(flat), "flatten": flat}
+        key = "rowless-views" if not z else "op-structure"
+        if isinstance(got.get("shape"), list) and not z:
+            # (rows, row length); a third entry (element width) means nothing without elements: an empty row slice of a
+            # rectangular array reports the row length there
+            got = dict(got, shape=got["shape"][:2])
+        bad = [k for k, v in exp.items() if got.get(k) != v]
+        if bad:
+            out.append((key, "%s: %s; the list-of-rows model has %d rows %s" % (
+                what, "; ".join("%s is %s (expected %s)" % (k, got.get(k), exp[k]) for k in bad), len(z), z)))
+        st_exp = [sum(lens[:j]) for j in range(len(lens))]
+        if got.get("starts") != st_exp:
+            out.append(("rowless-starts" if not z else "op-structure", "%s: starts is %s, the list-of-rows model has %d rows "
+                        "and starts %s" % (what, got.get("starts"), len(z), st_exp)))
+    return out
+
+
+# ----------------------------------------------------------------------------- NaN / inf comparisons (round 3s)
+SPECIAL = {"nan": float("nan"), "inf": float("inf"), "-inf": float("-inf")}
+FVALS = [0.0, 1.0, 2.5, 4.0, -1.5, 6.5, 9.0, "nan", "nan", "inf", "-inf"]
+
+
+def _dec(x):
+    return SPECIAL[x] if isinstance(x, str) else float(x)
+
+
+def _enc(x):
+    x = float(x)
+    if x != x:
+        return "nan"
+    if x in (float("inf"), float("-inf")):
+        return "inf" if x > 0 else "-inf"
+    return x
+
+
+def _stream_nan(rng, maxitems):
+    n = rng.randint(1, 4)
+    rect = rng.random() < 0.4
+    L = rng.randint(1, 4)
+    rows = [[rng.choice(FVALS) for _ in range(L if rect else rng.randint(1, 5))] for _ in range(n)]
+    if not any(isinstance(x, str) for r in rows for x in r):
+        rows[rng.randrange(n)][0] = "nan"
+    items = []
+    for _ in range(rng.randint(2, 3 + maxitems // 3)):
+        k = rng.choice(["cmp", "cmp", "cmp", "cmpra", "cmpra", "notcmp", "maskset", "maskset", "maskget", "allcmp", "anycmp",
+                        "masksetra"])
+        c = rng.choice(list(CMP))
+        kk = rng.choice(FVALS[:7] + ["nan", "inf", "-inf"]) if rng.random() < 0.9 else 4
+        side = rng.choice(["r", "r", "l"])
+        if k in ("cmp", "maskget"):
+            items.append([k, c, kk, side])
+        elif k in ("notcmp", "allcmp", "anycmp"):
+            items.append([k, c, kk])
+        elif k == "maskset":
+            items.append([k, c, kk, side, rng.choice(FVALS[:7])])
+        else:
+            other = [[x if rng.random() < 0.4 else rng.choice(FVALS) for x in r] for r in rows]
+            items.append([k, c, other] + ([rng.choice(FVALS[:7])] if k == "masksetra" else []))
+    return {"stream": "nan", "rows": rows, "ctor": rng.choice(["rows", "rows_np", "flat", "flat_np"]),
+            "f32": rng.random() < 0.2, "items": items}
+
+
+def _fsnap(a):
+    return {"data": [_enc(x) for x in np.asarray(a._data, dtype=float).tolist()],
+            "arr": [[_enc(x) for x in np.asarray(r, dtype=float).tolist()] for r in a._array],
+            "lens": [int(x) for x in a.lengths],
+            "iter": [[_enc(x) for x in np.asarray(r, dtype=float).tolist()] for r in a],
+            "elems": [[_enc(a[i, j][0]) for j in range(int(a.lengths[i]))] for i in range(len(a.lengths))]}
+
+
+def _run_nan(c):
+    import operator
+    from enspara.ra.ra import RaggedArray
+    dt = np.float32 if c["f32"] else np.float64
+    rows = [[_dec(x) for x in r] for r in c["rows"]]
+    if c["ctor"] == "rows":
+        a = RaggedArray([list(r) for r in rows])
+    elif c["ctor"] == "rows_np":
+        a = RaggedArray([np.array(r, dtype=dt) for r in rows])
+    else:
+        lens = [len(r) for r in rows]
+        a = RaggedArray(np.array([x for r in rows for x in r], dtype=dt), lengths=np.array(lens) if c["ctor"] == "flat_np" else lens)
+    out = {"init": _fsnap(a), "steps": []}
+
+    def cmpf(cn, k, side):
+        if side == "l":
+            return getattr(operator, cn)(k, a)          # scalar on the left: Python reflects the operator
+        return getattr(a, CMP[cn][1])(k)
+    for it in c["items"]:
+        k = it[0]
+        rec = {}
+        before = _fsnap(a)
+        try:
+            if k == "cmp":
+                rec["ra"] = _snap(cmpf(it[1], _dec(it[2]), it[3]))
+            elif k == "cmpra":
+                rec["ra"] = _snap(getattr(a, CMP[it[1]][1])(RaggedArray([[_dec(x) for x in r] for r in it[2]])))
+            elif k == "notcmp":
+                rec["ra"] = _snap(~getattr(a, CMP[it[1]][1])(_dec(it[2])))
+            elif k == "allcmp":
+                rec["val"] = bool(getattr(a, CMP[it[1]][1])(_dec(it[2])).all())
+            elif k == "anycmp":
+                rec["val"] = bool(getattr(a, CMP[it[1]][1])(_dec(it[2])).any())
+            elif k == "maskget":
+                rec["val"] = [_enc(x) for x in np.asarray(a[cmpf(it[1], _dec(it[2]), it[3])], dtype=float).tolist()]
+            elif k == "maskset":
+                a[cmpf(it[1], _dec(it[2]), it[3])] = _dec(it[4])
+            elif k == "masksetra":
+                a[getattr(a, CMP[it[1]][1])(RaggedArray([[_dec(x) for x in r] for r in it[2]]))] = _dec(it[3])
+        except Exception as ex:
+            rec["err"] = type(ex).__name__ + ": " + str(ex)[:120]
+        if k in ("maskset", "masksetra"):
+            rec["after"] = _fsnap(a)
+        elif _fsnap(a) != before:
+            rec["operand_altered"] = _fsnap(a)
+        out["steps"].append(rec)
+    return out
+
+
+def _oracle_nan(c, r):
+    out = []
+    rows = [list(x) for x in c["rows"]]            # encoded values
+
+    def cm(cn, x, y):
+        return int(pycmp(cn, _dec(x), _dec(y)))
+
+    def fs(rows):
+        return {"data": [x for r in rows for x in r], "arr": rows, "lens": [len(r) for r in rows], "iter": rows, "elems": rows}
+    norm = lambda rows: [[_enc(_dec(x)) for x in r] for r in rows]
+    if r["init"] != fs(norm(rows)):
+        out.append(("matches-list-model", "after construction from %s: views %s" % (rows, r["init"])))
+    for i, (it, rec) in enumerate(zip(c["items"], r["steps"])):
+        k = it[0]
+        tag = "item %d %s on rows %s" % (i, it, rows)
+        if "err" in rec:
+            out.append(("op-structure", "%s: raised %s" % (tag, rec["err"])))
+            continue
+        if "operand_altered" in rec:
+            out.append(("operands-unaltered", "%s: the operand is %s afterwards" % (tag, rec["operand_altered"])))
+        if k in ("cmp", "maskget", "maskset"):
+            left = it[3] == "l"
+            m = [[cm(it[1], it[2], x) if left else cm(it[1], x, it[2]) for x in row] for row in rows]
+        elif k in ("cmpra", "masksetra"):
+            m = [[cm(it[1], x, y) for x, y in zip(row, o)] for row, o in zip(rows, it[2])]
+        elif k == "notcmp":
+            m = [[1 - cm(it[1], x, it[2]) for x in row] for row in rows]
+        else:
+            m = [[cm(it[1], x, it[2]) for x in row] for row in rows]
+        if k in ("cmp", "cmpra", "notcmp"):
+            if rec.get("ra") != _ra_of(m):
+                out.append(("op-structure", "%s: got %s, element-wise (IEEE: every ordered comparison with NaN is false) %s"
+                            % (tag, rec.get("ra"), m)))
+        elif k in ("allcmp", "anycmp"):
+            exp = (all if k == "allcmp" else any)(x for row in m for x in row)
+            if rec.get("val") != exp:
+                out.append(("op-structure", "%s: got %s, expected %s" % (tag, rec.get("val"), exp)))
+        elif k == "maskget":
+            exp = [_enc(_dec(x)) for row, mr in zip(rows, m) for x, b in zip(row, mr) if b]
+            if rec.get("val") != exp:
+                out.append(("op-structure", "%s: a[mask] gives %s, the rows selected element-wise are %s" % (tag, rec.get("val"), exp)))
+        else:
+            v = it[4] if k == "maskset" else it[3]
+            rows = [[v if b else x for x, b in zip(row, mr)] for row, mr in zip(rows, m)]
+            if rec.get("after") != fs(norm(rows)):
+                out.append(("matches-list-model", "%s: views afterwards %s, the list-of-rows model %s" % (tag, rec.get("after"), norm(rows))))
+                rows = [list(x) for x in rec["after"]["arr"]] if rec.get("after") else rows
+    return out
+
+
+def _special(c):
+    return c.get("stream") in ("rowless", "nan")
+
+
+# ----------------------------------------------------------------------------- index-argument stream (round 3s)
+def _pool_entry(rng, rows):
+    """index objects kept by the caller: ndarrays (also two columns of one table) with negative entries"""
+    n = len(rows)
+    form = rng.choice(["pairs", "pairs", "pairs", "ps", "el"])
+    m = rng.randint(1, 3)
+    if form == "el":
+        r = rng.randint(-n, n - 1)
+        L = len(rows[r])
+        rs, cs = [r] * m, [rng.choice([-1, -L, rng.randint(-L, L - 1)]) for _ in range(m)]
+    else:
+        rs = [rng.choice([-1, -n, rng.randint(-n, n - 1)]) for _ in range(m)]
+        if form == "ps":
+            lim = min(len(rows[r]) for r in rs)
+            cs = [rng.randint(-lim, -1)] * m
+        else:
+            cs = [rng.choice([-1, -len(rows[r]), rng.randint(-len(rows[r]), len(rows[r]) - 1)]) for r in rs]
+    return {"form": form, "rs": rs, "cs": cs, "dt": rng.choice([None, None, "int32", "int16", "int8"]),
+            "view": form == "pairs" and rng.random() < 0.4}
+
+
+def _pool_op(rng, e, rows):
+    rsel = ["li", list(e["rs"])]
+    csel = ["int", e["cs"][0]] if e["form"] == "ps" else ["li", list(e["cs"])]
+    q = rng.random()
+    v = ["s", 50 + rng.randint(0, 9)] if q < 0.5 else ["v", [50 + rng.randint(0, 9) for _ in e["rs"]]]
+    return ["Set2D", rsel, csel, v]
+
+
+def _stream_ixarg(rng, maxitems):
+    """writes and reads through index ndarrays that the caller keeps and uses again: after an append, after a row
+    assignment that changes a row length, and on a second array with other row lengths"""
+    n = rng.randint(1, 4)
+    rows = [[_val(rng) for _ in range(rng.randint(1, 5))] for _ in range(n)]
+    init = {"kind": "rows", "rows": rows, "np": rng.random() < 0.5} if rng.random() < 0.5 \
+        else _flat_init(rows, rng.random() < 0.5)
+    pool = [_pool_entry(rng, rows) for _ in range(rng.randint(1, 2))]
+    items, cur = [], rows
+
+    def use(j):
+        nonlocal cur
+        q = rng.random()
+        if q < 0.55:
+            op = _pool_op(rng, pool[j], cur)
+            items.append({"t": "op", "op": op, "pool": j})
+            try:
+                cur = shadow_apply(cur, op)
+            except Rej:
+                pass
+        elif q < 0.8:
+            items.append({"t": "poolread", "pool": j})
+        else:
+            m = rng.randint(1, 4)
+            items.append({"t": "poolread", "pool": j,
+                          "rows2": [[_val(rng) for _ in range(rng.randint(1, 5))] for _ in range(m)]})
+    for _ in range(rng.randint(2, 2 + maxitems // 6)):
+        j = rng.randrange(len(pool))
+        use(j)
+        q = rng.random()
+        if q < 0.5:
+            vs = [[_val(rng) for _ in range(rng.randint(1, 4))] for _ in range(rng.randint(1, 2))]
+            cur = _track(items, cur, ["Append", vs, rng.choice(["ra", "lists"])])
+        elif q < 0.8 and not _rect(cur):
+            cur = _track(items, cur, ["SetRow", rng.randint(-len(cur), len(cur) - 1),
+                                     ["v", [_val(rng) for _ in range(rng.randint(1, 5))]]])
+        elif q < 0.9:
+            items += _obs_reads(rng, cur)
+        use(j)
+        if rng.random() < 0.5:
+            items += _obs_reads(rng, cur)
+    return {"init": init, "items": items, "stream": "ixarg", "pool": pool}
+
+
 def generate(rng, tier):
     ncases = 320 if tier == "quick" else 2600
     maxitems = 12 if tier == "quick" else 40
@@ -776,6 +1250,12 @@ def generate(rng, tier):
             cases.append(f(rng, maxitems))
     for _ in range(140 if tier == "quick" else 1200):
         cases.append(_stream_dtype(rng, maxitems))
+    for _ in range(120 if tier == "quick" else 1000):
+        cases.append(_stream_ixarg(rng, maxitems))
+    for _ in range(120 if tier == "quick" else 1000):
+        cases.append(_stream_rowless(rng))
+    for _ in range(150 if tier == "quick" else 1200):
+        cases.append(_stream_nan(rng, maxitems))
     return cases
 
 
@@ -875,9 +1355,33 @@ def _mk_value(v, RaggedArray):
     return ra, ra
 
 
-def _do_op(a, op, RaggedArray):
+def _pool_objects(pool):
+    """the caller's index objects, built once per case: [(row index object, column index object)]"""
+    objs = []
+    for e in pool:
+        if e["view"]:
+            table = np.array([e["rs"], e["cs"]], dtype=e["dt"]).T.copy()        # one (row, col) pair per line
+            objs.append((table[:, 0], table[:, 1]))
+        elif e["form"] == "ps":
+            objs.append((np.array(e["rs"], dtype=e["dt"]), e["cs"][0]))
+        elif e["form"] == "el":
+            objs.append((e["rs"][0], np.array(e["cs"], dtype=e["dt"])))
+        else:
+            objs.append((np.array(e["rs"], dtype=e["dt"]), np.array(e["cs"], dtype=e["dt"])))
+    return objs
+
+
+def _pool_snap(obj):
+    return [x.tolist() if isinstance(x, np.ndarray) else int(x) for x in obj]
+
+
+def _do_op(a, op, RaggedArray, ixobj=None):
     """executes one write on the real object; returns the RaggedArray value involved (if any)."""
     k = op[0]
+    if ixobj is not None:
+        val, ra = _mk_value(op[3], RaggedArray)
+        a[ixobj] = val
+        return ra
     if k == "SetRow":
         v = op[2]
         a[op[1]] = v[1] if v[0] == "s" else np.array(v[1]) if len(v[1]) % 2 else list(v[1])
@@ -1004,6 +1508,10 @@ def _do_obs(a, q, RaggedArray):
 
 def run_impl(c):
     from enspara.ra.ra import RaggedArray
+    if c.get("stream") == "rowless":
+        return _run_rowless(c)
+    if c.get("stream") == "nan":
+        return _run_nan(c)
     init = c["init"]
     out = {"alias": []}
     _NUM[0] = c.get("stream") == "dtype"
@@ -1031,12 +1539,34 @@ def run_impl(c):
     if _NUM[0]:
         out["init_dtype"] = str(a._data.dtype)
     steps = []
+    pool = _pool_objects(c["pool"]) if "pool" in c else []
+    pool0 = [_pool_snap(o) for o in pool]
+
+    def pool_check(j, what):
+        if _pool_snap(pool[j]) != pool0[j]:
+            out["alias"].append("operand altered: the index arrays %s handed to %s are %s afterwards" % (
+                pool0[j], what, _pool_snap(pool[j])))
+            pool0[j] = _pool_snap(pool[j])          # reported once per change
     for it in c["items"]:
         before = _snap(a)
+        if it["t"] == "poolread":
+            # a read a[R, C] with the caller's index arrays, on the array itself or on a second array
+            rec = {}
+            try:
+                tgt = RaggedArray([list(x) for x in it["rows2"]]) if "rows2" in it else a
+                rec["val"] = [_cv(x) for x in np.asarray(tgt[pool[it["pool"]]]).reshape(-1).tolist()]
+            except Exception as ex:
+                rec["err"] = _errkind(ex)
+                rec["msg"] = type(ex).__name__ + ": " + str(ex)[:120]
+            pool_check(it["pool"], "__getitem__")
+            if _snap(a) != before:
+                out["alias"].append("operand altered by a read through index arrays")
+            steps.append(rec)
+            continue
         if it["t"] == "op":
             rec = {}
             try:
-                ra = _do_op(a, it["op"], RaggedArray)
+                ra = _do_op(a, it["op"], RaggedArray, pool[it["pool"]] if "pool" in it else None)
                 rec["e"] = None
             except Exception as ex:
                 ra = None
@@ -1044,6 +1574,8 @@ def run_impl(c):
                 rec["msg"] = type(ex).__name__ + ": " + str(ex)[:120]
             rec.update(_snap(a))
             rec["reads"] = _reads(a)
+            if "pool" in it:
+                pool_check(it["pool"], "__setitem__")
             if _NUM[0]:
                 rec["dtype"] = str(a._data.dtype)
             if ra is not None:
@@ -1123,6 +1655,10 @@ def _check_state(tag, snap, reads, rows, out):
 
 def oracle(c, r):
     out = []
+    if c.get("stream") == "rowless":
+        return _oracle_rowless(c, r)
+    if c.get("stream") == "nan":
+        return _oracle_nan(c, r)
     if "steps" not in r:
         return [("harness", "run_impl failed: %s" % r)]
     init = c["init"]
@@ -1138,7 +1674,9 @@ def oracle(c, r):
             else "op-new-object" if msg.startswith("operator") else "value-no-alias"
         out.append((key, msg))
     for i, (it, rec) in enumerate(zip(c["items"], r["steps"])):
-        tag = "item %d %s" % (i, (it.get("op") or it.get("q") or ["selw"])[0])
+        tag = "item %d %s" % (i, (it.get("op") or it.get("q") or [it["t"]])[0])
+        if "pool" in it and it["t"] == "op":
+            tag += " (index arrays of the caller, used before: %s)" % c["pool"][it["pool"]]
         if it["t"] == "op" and "dtype" in rec:
             prev_dt = ([r.get("init_dtype")] + [x["dtype"] for x in r["steps"][:i] if "dtype" in x])[-1]
             tag += " %s(_data was %s, is %s)" % (
@@ -1164,6 +1702,19 @@ def oracle(c, r):
                     continue
             rows = new
             _check_state(tag, rec, rec["reads"], rows, out)
+        elif it["t"] == "poolread":
+            e = c["pool"][it["pool"]]
+            tgt = [list(x) for x in it["rows2"]] if "rows2" in it else rows
+            try:
+                cells = _cells(tgt, ["li", list(e["rs"])], ["int", e["cs"][0]] if e["form"] == "ps" else ["li", list(e["cs"])])
+                exp = [tgt[r][cc] for r, cc in cells]
+            except Rej as ex:
+                exp = {"err": ex.kind}
+            got = rec["val"] if "val" in rec else {"err": rec.get("err")}
+            if got != exp:
+                out.append(("index-arrays-reused", "%s: a[R, C] with the caller's index arrays R=%s C=%s on rows %s gives %s (%s), "
+                            "the list-of-rows model %s" % (tag, e["rs"], e["cs"] if e["form"] != "ps" else e["cs"][0], tgt, got,
+                                                           rec.get("msg"), exp)))
         elif it["t"] == "selw":
             row = list(rows[it["r"]])
             row[it["c"]] = it["v"]
@@ -1343,7 +1894,7 @@ def _obs(q):
 
 def _coq_items(c):
     """the items the Coq trace follows (a write into a selection does not concern the array itself)"""
-    return [it for it in c["items"] if it["t"] != "selw"]
+    return [it for it in c["items"] if it["t"] not in ("selw", "poolread")]
 
 
 def _items(c):
@@ -1409,13 +1960,13 @@ def _scaled(c, r):
 
 
 def coq_check(c, r):
-    if "steps" not in r:
+    if _special(c) or "steps" not in r:
         return None
     if c.get("stream") == "dtype":
         c, r = _scaled(c, r)
     exp = ["(VRA %s)" % _slots(r["init"])]
     for it, rec in zip(c["items"], r["steps"]):
-        if it["t"] == "selw":
+        if it["t"] in ("selw", "poolread"):
             continue
         if it["t"] == "op":
             exp.append("(VStep %s %s)" % (copt(rec["e"], _err, "err"), _slots(rec)))
@@ -1435,6 +1986,8 @@ def coq_check(c, r):
 
 
 def coq_show(c):
+    if _special(c):
+        return "tt"
     if c.get("stream") == "dtype":
         c = _scaled(c, None)[0]
     return "full_trace %s %s" % (_init(c), _items(c))
@@ -1450,6 +2003,10 @@ def _ok_ops(c, r):
 
 
 def nontrivial(c, r):
+    if c.get("stream") == "rowless":
+        return len(r.get("stages", [])) >= 2
+    if c.get("stream") == "nan":
+        return len(r.get("steps", [])) >= 2
     ok = _ok_ops(c, r)
     nrows = len(c["init"]["rows"]) if c["init"]["kind"] == "rows" else len(c["init"]["lens"])
     if c.get("stream"):
@@ -1505,7 +2062,36 @@ def _dtype_tags(c, r):
     return t
 
 
+def _special_tags(c, r):
+    t = {"stream-" + c["stream"]}
+    if c["stream"] == "rowless":
+        model = _rowless_model(c)
+        t.add("rowless-src-" + c["src"][0] + ("-" + c["src"][2][0] if c["src"][0] == "sl2" else ""))
+        for z, st in zip(model, [None] + c["chain"]):
+            if st is None:
+                t.add("rowless-produced" if not z else "rowless-control-nonempty")
+        for i, st in enumerate(c["chain"]):
+            if i + 1 < len(r.get("stages", [])) and not model[i]:
+                t.add("rowless-then-" + st[0])
+        return sorted(t)
+    vals = [x for row in c["rows"] for x in row]
+    for it in c["items"]:
+        t.add("nan-" + it[0])
+        if it[0] in ("cmp", "maskget", "maskset"):
+            t.add("nan-scalar-" + ("left" if it[3] == "l" else "right"))
+            t.add("nan-op-" + it[1])
+        if isinstance(it[2], str):
+            t.add("nan-scalar-" + it[2])
+    if "nan" in vals:
+        t.add("nan-in-data")
+    if "inf" in vals or "-inf" in vals:
+        t.add("inf-in-data")
+    return sorted(t)
+
+
 def tags(c, r):
+    if _special(c):
+        return _special_tags(c, r)
     t = set()
     i = c["init"]
     lens = [len(x) for x in i["rows"]] if i["kind"] == "rows" else i["lens"]
@@ -1521,6 +2107,22 @@ def tags(c, r):
     prev = None
     seen_before, appended, slice_written = set(), False, False
     for it, rec in zip(c["items"], r.get("steps", [])):
+        if it["t"] == "poolread":
+            t.add("pool-read" + ("-second-array" if "rows2" in it else ""))
+            continue
+        if it["t"] == "op" and "pool" in it:
+            e = c["pool"][it["pool"]]
+            t.add("pool-write-" + e["form"])
+            if rec.get("e") is None:
+                t.add("pool-write-ok")
+                if appended:
+                    t.add("pool-write-after-append")
+            if e["view"]:
+                t.add("pool-index-view")
+            if e["dt"]:
+                t.add("pool-index-" + e["dt"])
+            if any(x < 0 for x in e["rs"] + e["cs"]):
+                t.add("pool-index-negative")
         if it["t"] == "selw":
             if "sel" in rec:
                 t.add("selw-" + it["how"])
@@ -1577,4 +2179,12 @@ ESSENTIAL_TAGS = ["start-rect", "start-ragged", "ctor-rows", "ctor-flat", "ctor-
                   "dt-append-emptyrow", "dt-append-emptylist", "dt-append-narrower",
                   "dt-widen-int-float", "dt-widen-int-float-nonintegral", "dt-widen-int-int", "dt-widen-int-int-beyond-int32",
                   "dt-widen-float-float", "dt-widen-float32-float64-inexact", "dt-widen-bool-int", "dt-widen-bool-float",
-                  "dt-write-after-widening"] + ["dt-start-" + d for d in DTS]
+                  "dt-write-after-widening"] + ["dt-start-" + d for d in DTS] + [
+                  "stream-ixarg", "pool-write-pairs", "pool-write-ps", "pool-write-el", "pool-write-ok", "pool-write-after-append",
+                  "pool-index-view", "pool-index-negative", "pool-index-int32", "pool-read", "pool-read-second-array",
+                  "stream-rowless", "rowless-produced", "rowless-src-sl2-sl", "rowless-src-sl2-int", "rowless-src-sl2-li",
+                  "rowless-src-rows", "rowless-src-ctor", "rowless-src-ctor_flat", "rowless-then-bin", "rowless-then-cmp",
+                  "rowless-then-not_cmp", "rowless-then-append", "rowless-then-set_all", "rowless-then-binself",
+                  "stream-nan", "nan-in-data", "inf-in-data", "nan-cmp", "nan-cmpra", "nan-notcmp", "nan-maskset",
+                  "nan-masksetra", "nan-maskget", "nan-scalar-left", "nan-scalar-right", "nan-scalar-nan"] + [
+                  "nan-op-" + o for o in CMP]
